@@ -63,12 +63,16 @@ type c05State struct {
 	f        ssax.Facts
 	mismatch bool
 	countOK  bool
+	compared bool   // the token of the current reply was compared in this iteration
+	badCount string // a reply was counted although its read may have failed or its token was not compared
 }
 
 func (s *c05State) Key() string {
-	return fmt.Sprintf("%v/%v/%s", s.mismatch, s.countOK, s.f.Key())
+	return fmt.Sprintf("%v/%v/%v/%s/%s", s.mismatch, s.countOK, s.compared, s.badCount, s.f.Key())
 }
-func (s *c05State) Copy() ssax.PState { return &c05State{s.f.Clone(), s.mismatch, s.countOK} }
+func (s *c05State) Copy() ssax.PState {
+	return &c05State{s.f.Clone(), s.mismatch, s.countOK, s.compared, s.badCount}
+}
 
 // replyLoopFuncs returns the functions of package chunked that call the reply helper.
 func replyLoopFuncs(c *core.Ctx, helper *ssa.Function) []*ssa.Function {
@@ -91,6 +95,7 @@ func runC05(c *core.Ctx) {
 	c.Rule("R5.1", "each chunked write takes one fresh token from the generator channel; the metadata record and the prefix of every chunk carry that same value; the generator sends only arrays filled by crypto/rand.Read", 2)
 	c.Rule("R5.2", "in every reply-driven chunk loop, once a chunk's token differs from the metadata token no path reaches the construction of a hit (or the re-store of the assembled value)", 3)
 	c.Rule("R5.3", "a hit is constructed only on paths that compared the number of chunk replies with the metadata's chunk count and took the equal side", 3)
+	c.Rule("R5.4", "every chunk reply that is counted was read without error and had its token compared in the same iteration, or no hit is reachable afterwards: a skipped comparison or a failed read leaves bytes in the value that the token check never covered", 3)
 
 	helper := replyHelper(c)
 	if helper == nil {
@@ -234,14 +239,40 @@ func checkReplyLoop(c *core.Ctx, fn, helper *ssa.Function) {
 		}
 		return walk(v)
 	}
-	var hitsMismatch, hitsNoCount []string
+	var hitsMismatch, hitsNoCount, hitsBadCount []string
 	nHits := 0
+	var helperErr ssa.Value
+	if hcall.Referrers() != nil {
+		for _, r := range *hcall.Referrers() {
+			if ex, ok := r.(*ssa.Extract); ok && types.TypeString(ex.Type(), nil) == "error" {
+				helperErr = ex
+			}
+		}
+	}
+	isCount := func(ins ssa.Instruction) bool {
+		bo, ok := ins.(*ssa.BinOp)
+		return ok && counter != nil && bo.Op == token.ADD && (bo.X == counter || bo.Y == counter)
+	}
 	ex := &ssax.Explorer{Fn: fn}
 	ex.Enter = func(b, pred *ssa.BasicBlock, st ssax.PState) { st.(*c05State).f.EnterBlock(b, pred) }
 	ex.Instr = func(ins ssa.Instruction, ps ssax.PState) bool {
 		s := ps.(*c05State)
 		if isMetaFetch(ins) {
-			s.mismatch, s.countOK = false, false
+			s.mismatch, s.countOK, s.badCount = false, false, ""
+		}
+		if ins == ssa.Instruction(hcall) {
+			s.compared = false
+		}
+		if tokCmp != nil && ins == ssa.Instruction(tokCmp) {
+			s.compared = true
+		}
+		if isCount(ins) && s.badCount == "" {
+			switch {
+			case helperErr != nil && s.f.Eval(helperErr).Nil != ssax.Yes:
+				s.badCount = "a reply is counted at " + c.P.Pos(ins.Pos()) + " on a path where its read may have failed (the buffers then hold the previous reply's token and no data)"
+			case !s.compared:
+				s.badCount = "a reply is counted at " + c.P.Pos(ins.Pos()) + " on a path that skipped the token comparison for it"
+			}
 		}
 		if hit, what := isHit(ins); hit {
 			nHits++
@@ -250,6 +281,9 @@ func checkReplyLoop(c *core.Ctx, fn, helper *ssa.Function) {
 			}
 			if !s.countOK {
 				hitsNoCount = append(hitsNoCount, what+" at "+c.P.Pos(ins.Pos())+" on a path that never established replies == NumChunks")
+			}
+			if s.badCount != "" {
+				hitsBadCount = append(hitsBadCount, what+" at "+c.P.Pos(ins.Pos())+" although "+s.badCount)
 			}
 		}
 		s.f.Step(ins)
@@ -264,6 +298,9 @@ func checkReplyLoop(c *core.Ctx, fn, helper *ssa.Function) {
 			}
 			if !s.countOK {
 				hitsNoCount = append(hitsNoCount, what+" at "+c.P.Pos(ins.Pos())+" on a path that never established replies == NumChunks")
+			}
+			if s.badCount != "" {
+				hitsBadCount = append(hitsBadCount, what+" at "+c.P.Pos(ins.Pos())+" although "+s.badCount)
 			}
 		}
 	}
@@ -299,6 +336,7 @@ func checkReplyLoop(c *core.Ctx, fn, helper *ssa.Function) {
 	if ex.Exceeded {
 		c.Undecided("R5.2", key+"#token-guard", pos, "state space exceeded")
 		c.Undecided("R5.3", key+"#completeness-guard", pos, "state space exceeded")
+		c.Undecided("R5.4", key+"#counted-replies-checked", pos, "state space exceeded")
 		return
 	}
 	if nHits == 0 {
@@ -313,6 +351,14 @@ func checkReplyLoop(c *core.Ctx, fn, helper *ssa.Function) {
 		c.Violate("R5.2", key+"#token-guard", pos, uniq(hitsMismatch)[0], uniq(hitsMismatch)...)
 	default:
 		c.OK("R5.2", key+"#token-guard", pos, fmt.Sprintf("token compared at %s; no hit reachable after a mismatch (%d abstract states)", c.P.Pos(tokCmp.Pos()), ex.Visited))
+	}
+	switch {
+	case counter == nil || helperErr == nil:
+		c.Undecided("R5.4", key+"#counted-replies-checked", pos, "no loop-carried reply counter / no error result of the reply helper")
+	case len(hitsBadCount) > 0:
+		c.Violate("R5.4", key+"#counted-replies-checked", pos, uniq(hitsBadCount)[0], uniq(hitsBadCount)...)
+	default:
+		c.OK("R5.4", key+"#counted-replies-checked", pos, "every counted reply was read without error and token-compared in its iteration, or no hit follows")
 	}
 	switch {
 	case counter == nil:
